@@ -68,6 +68,21 @@ func tableQueries(c *ctx, t *tableCase, which string) []string {
 				qs = append(qs, "sr:"+hxs(k))
 			}
 		}
+		if which == "c02" {
+			// the point lookups ReadRef / ReadLogAt
+			for _, i := range pick(len(t.refs), maxk) {
+				for _, k := range neighbours(t.refs[i].RefName)[:3] {
+					qs = append(qs, "rr:"+hxs(k))
+				}
+			}
+			for _, i := range pick(len(t.logs), maxk) {
+				l := t.logs[i]
+				for _, u := range []uint64{l.UpdateIndex, l.UpdateIndex + 1, l.UpdateIndex - 1, ^uint64(0)} {
+					qs = append(qs, fmt.Sprintf("rl:%s:%d", hxs(l.RefName), u))
+				}
+				qs = append(qs, fmt.Sprintf("rl:%s:%d", hxs(l.RefName+"\x00"), l.UpdateIndex))
+			}
+		}
 		qs = append(qs, "sl::0", fmt.Sprintf("sl::%d", ^uint64(0)), "sl:"+hxs("\xff\xff")+":5")
 		for _, i := range pick(len(t.logs), maxk) {
 			l := t.logs[i]
